@@ -134,9 +134,6 @@ Corollary parse_tag_range_bytes : forall len d t w used tag wt,
   0 <= tag < 4294967296 /\ 0 <= wt < 8.
 Proof. intros len d t w used tag wt Hlen _. apply parse_tag_range. exact Hlen. Qed.
 
-Check parse_tag_range_gen.
-Check parse_tag_range.
-Check parse_tag_range_bytes.
 Print Assumptions parse_tag_range_gen.
 Print Assumptions parse_tag_range.
 Print Assumptions parse_tag_range_bytes.
